@@ -209,8 +209,11 @@ class ControlVariates:
         sigma_xy = covariance[0:-1, -1]
         try:
             # a control without sample variance cannot be regressed on (uncorrelated controls can: a zero off the diagonal
-            # of the covariance matrix is not a degeneracy)
-            if np.amin(np.diag(np.atleast_2d(sigma_x))) < 1e-12:
+            # of the covariance matrix is not a degeneracy); the variance is judged against the size of the control, which
+            # may be quoted in any cash unit
+            variances = np.diag(np.atleast_2d(sigma_x))
+            mean_squares = np.mean(np.square(np.atleast_2d(x.T)), axis=1)
+            if np.any(variances <= 1e-12 * mean_squares):
                 b_star = np.zeros_like(sigma_xy)
             else:
                 inv_sigma_x = np.linalg.inv(sigma_x)
